@@ -33,13 +33,13 @@ type PairSpec struct {
 
 // EvSpec is one evidence blob as plain data.
 type EvSpec struct {
-	Signer   int        `json:"signer"`             // 0..99: current validator Signer%len (index looked up in the look-back set); >=100: identity Signer-100; <0: raw index -Signer-1
-	Round    int        `json:"round,omitempty"`    // evidence round = parent height + Round
-	Index    uint32     `json:"index"`              // round index label
-	VoteType uint8      `json:"vtype"`              // vote type label
+	Signer   int        `json:"signer"`          // 0..99: current validator Signer%len (index looked up in the look-back set); >=100: identity Signer-100; <0: raw index -Signer-1
+	Round    int        `json:"round,omitempty"` // evidence round = parent height + Round
+	Index    uint32     `json:"index"`           // round index label
+	VoteType uint8      `json:"vtype"`           // vote type label
 	Pairs    []PairSpec `json:"pairs"`
-	Raw      int        `json:"raw,omitempty"`      // 0 well-formed; 1 undecodable data; 2 unknown evidence type; 3 deprecated "doublesign" type; 4 inactive type
-	Adv      bool       `json:"adv,omitempty"`      // placed directly into SlashData by an adversarial proposer (C05)
+	Raw      int        `json:"raw,omitempty"` // 0 well-formed; 1 undecodable data; 2 unknown evidence type; 3 deprecated "doublesign" type; 4 inactive type
+	Adv      bool       `json:"adv,omitempty"` // placed directly into SlashData by an adversarial proposer (C05)
 }
 
 // PairInfo is the resolved form of a pair.
